@@ -321,6 +321,40 @@ func init() {
 				s.Emit(fmt.Sprintf("mon.c14.pair.admissible mode=%s | %s | %s", md.name, la, lb), ans)
 			}
 		}
+		// the node renders the sign bytes after stateless validation has run on the message object (ValidateBasicDecorator
+		// comes before SigVerificationDecorator): messages that differ only in the spelling of an address are still
+		// different messages then
+		{
+			up := strings.ToUpper
+			afterVB := func(a, b sdk.Msg) {
+				la, lb := msgLabel(te, a), msgLabel(te, b)
+				ea, eb := a.ValidateBasic(), b.ValidateBasic()
+				for _, md := range modes {
+					ba, ra := e.signBytesOf(a, md.m, A)
+					bb, rb := e.signBytesOf(b, md.m, A)
+					ans := "pass"
+					switch {
+					case ea != nil || eb != nil:
+						ans = "pass #one-of-them-is-refused-by-stateless-validation"
+					case ra != "ok" || rb != "ok":
+						ans = "pass #not-signable-in-this-mode"
+					case bytes.Equal(ba, bb):
+						ans = "fail #identical-sign-bytes"
+					}
+					s.Emit(fmt.Sprintf("mon.c14.pair.admissible mode=%s after-validation | %s | %s", md.name, la, lb), ans)
+				}
+			}
+			afterVB(&aoltypes.MsgAddRecordRequest{TopicName: "t", Key: []byte("k"), Value: []byte("v"), WriterAddress: w, OwnerAddress: o},
+				&aoltypes.MsgAddRecordRequest{TopicName: "t", Key: []byte("k"), Value: []byte("v"), WriterAddress: up(w), OwnerAddress: o})
+			afterVB(&aoltypes.MsgAddRecordRequest{TopicName: "t", Key: []byte("k"), Value: []byte("v"), WriterAddress: w, OwnerAddress: o},
+				&aoltypes.MsgAddRecordRequest{TopicName: "t", Key: []byte("k"), Value: []byte("v"), WriterAddress: w, OwnerAddress: up(o)})
+			afterVB(&aoltypes.MsgAddWriterRequest{TopicName: "t", Moniker: "m", WriterAddress: w, OwnerAddress: o},
+				&aoltypes.MsgAddWriterRequest{TopicName: "t", Moniker: "m", WriterAddress: up(w), OwnerAddress: o})
+			afterVB(&aoltypes.MsgCreateTopicRequest{TopicName: "t", Description: "d", OwnerAddress: o},
+				&aoltypes.MsgCreateTopicRequest{TopicName: "t", Description: "d", OwnerAddress: up(o)})
+			afterVB(&aoltypes.MsgDeleteWriterRequest{TopicName: "t", WriterAddress: w, OwnerAddress: o},
+				&aoltypes.MsgDeleteWriterRequest{TopicName: "t", WriterAddress: up(w), OwnerAddress: o})
+		}
 		pair(aw0, dw)
 		pair(aw0, ar0)
 		pair(dw, ar0)
